@@ -81,6 +81,9 @@ func runSyncInput(c *Ctx, caseNo int, in syncInput) ([]vt.Ev, *SyncResult, error
 	}
 	o := SyncOpts{Mode: in.Mode, Differ: in.Differ, CapS2R: in.CapS, CapR2S: in.CapR,
 		Extra: vt.Ev{"input": vt.Opaque(in), "src": srcSnap.Ev(), "origin": in.Origin}}
+	if in.Unpriv {
+		o.Extra["unpriv"] = true
+	}
 	if in.IsDiffModel {
 		dm := []vt.Ev{}
 		for _, x := range in.DiffModel {
@@ -365,6 +368,44 @@ func syncUnpriv(c *Ctx) error {
 		n = 300
 	}
 	perms := []uint32{0444, 0400, 04555, 02555, 01444, 04444, 06555, 0644, 04755, 0555, 0600}
+	// many read-only files, each followed at once by a hard link to it: the link is created (and the shared inode's mode
+	// restored) while the content of the file it names is still on its way
+	{
+		reps := 3
+		if c.Thorough() {
+			reps = 12
+		}
+		for r := 0; r < reps; r++ {
+			var src model.Tree
+			for k := 0; k < 120; k++ {
+				e := newFile(c.Rand, genOpts{})
+				e.Path, e.Perm, e.Uid, e.Gid, e.Group = fmt.Sprintf("f%03d", k), []uint32{0444, 0400, 02555}[k%3], 0, 0, 1000+k
+				e.Size = int64(1 + k%50)
+				e.Data = fileData(e.DSeed, int(e.Size))
+				e.Content = model.ContentID(e.Data)
+				l := e
+				l.Path = fmt.Sprintf("f%03dl", k)
+				src = append(src, e, l)
+			}
+			src.Sort()
+			in := syncInput{Src: src, Mode: "dirty", Differ: "metadata", CapS: []int{0, 8, 64}[r%3], CapR: []int{8, 0, 64}[r%3], Origin: "unpriv/readOnlyFileThenItsLink", Unpriv: true}
+			evs, res, err := runSyncInput(c, c.NextCase(), in)
+			if err == errUnprivUnsupported {
+				c.Stats.Count("unprivUnsupportedInThisBuild", 1)
+				return nil
+			}
+			if err != nil {
+				return fmt.Errorf("unpriv case: %w", err)
+			}
+			for _, e := range evs {
+				c.Out.Emit(e)
+			}
+			c.Stats.Count("origin:unpriv", 1)
+			if res.SOK && res.ROK {
+				c.Stats.Count("unprivBothOK", 1)
+			}
+		}
+	}
 	for i := 0; i < n; i++ {
 		src := RandomTree(c.Rand, genOpts{MaxEntries: 14, Links: true, BigFiles: i%4 == 0})
 		for k := range src {
